@@ -50,6 +50,11 @@ def _create_table(rng, tables):
     ncols = rng.randint(1, 6)
     cols = []
     used = rng.sample(_COLS, ncols)
+    if rng.random() < 0.12:
+        # long identifiers: generated names (constraints, indexes) built from them pass any length limit
+        tail = rng.choice(["_of_the_customer_billing_and_shipping_address_history", "_as_reported_by_the_upstream_system",
+                           "_" + "x" * rng.choice([30, 64, 130])])
+        used = [c + tail for c in used]
     for c in used:
         cols.append("%s %s%s" % (_q(rng, c), rng.choice(_TYPES), rng.choice(_COL_TAILS)))
     if rng.random() < 0.3:
@@ -59,8 +64,8 @@ def _create_table(rng, tables):
                     % (rng.randint(1, 99), used[0], rng.choice(_NAMES)))
     if rng.random() < 0.15:
         cols.append("CONSTRAINT chk_%d CHECK (%s > 0)" % (rng.randint(1, 99), used[0]))
-    if rng.random() < 0.15:
-        cols.append("UNIQUE (%s)" % used[-1])
+    if rng.random() < 0.2:
+        cols.append("UNIQUE (%s)" % ", ".join(used[-rng.choice([1, 1, 2, 3]):]))
     head = _case(rng, "create") + " "
     r = rng.random()
     if r < 0.1:
